@@ -177,6 +177,18 @@ func ruleBlobRemovalGuards(c *Ctx, rule string) {
 									if len(core.CallsTo(info, as.Node, false, "os.CreateTemp", "os.MkdirTemp")) > 0 {
 										ok = true
 									}
+									// a local holding <temp>.Name()
+									for _, nm := range core.CallsTo(info, as.Node, false, "os.File.Name") {
+										if se, isS := ast.Unparen(nm.Fun).(*ast.SelectorExpr); isS {
+											if tid, isT := ast.Unparen(se.X).(*ast.Ident); isT && info.Uses[tid] != nil {
+												for _, as2 := range g.AssignsTo(info.Uses[tid]) {
+													if len(core.CallsTo(info, as2.Node, false, "os.CreateTemp")) > 0 {
+														ok = true
+													}
+												}
+											}
+										}
+									}
 								}
 							}
 						}
@@ -327,7 +339,14 @@ func ruleNewLayer(c *Ctx, rule string) {
 		}
 		for _, t := range temps {
 			tv := core.ResultVar(info, t.Top, t.Node.(*ast.CallExpr), 0)
-			if tv != nil && core.UsesObj(info, rc.Args[0], tv) {
+			srcIsTemp := tv != nil && core.UsesObj(info, rc.Args[0], tv)
+			if id, isId := ast.Unparen(rc.Args[0]).(*ast.Ident); isId && tv != nil && !srcIsTemp {
+				// a local holding temp.Name()
+				if rhs, _, cnt := singleDef(info, f.Body, info.Uses[id]); cnt == 1 && rhs != nil && core.UsesObj(info, rhs, tv) && len(core.CallsTo(info, rhs, false, "os.File.Name")) == 1 {
+					srcIsTemp = true
+				}
+			}
+			if srcIsTemp {
 				// temp dir is the blobs dir
 				if p := core.PathOf(info, t.Node.(*ast.CallExpr).Args[0]); p.Valid() {
 					for _, as := range g.AssignsTo(p.Root) {
@@ -689,6 +708,12 @@ func runC12(c *Ctx) {
 			rc := r.Node.(*ast.CallExpr)
 			// source is the opened partial file
 			ok := len(core.CallsTo(info, rc.Args[0], false, "os.File.Name")) == 1 && selName(rc.Args[1]) == "Name"
+			if id, isId := ast.Unparen(rc.Args[0]).(*ast.Ident); isId && !ok {
+				// a local holding <opened partial file>.Name()
+				if rhs, _, cnt := singleDef(info, f.Body, info.Uses[id]); cnt == 1 && rhs != nil && len(core.CallsTo(info, rhs, false, "os.File.Name")) == 1 {
+					ok = selName(rc.Args[1]) == "Name"
+				}
+			}
 			okW := false
 			for _, w := range g.FindCalls("golang.org/x/sync/errgroup.Group.Wait") {
 				if s, _ := g.OnSuccessOf(w, r.Loc); s {
